@@ -86,7 +86,22 @@ def rule_accessors(ctx):
             else:
                 pat = f"({recv})->derive_more::core::result::Result<(#({r}#data_types),*),derive_more::TryUnwrapError<{r}Self>>{{matchself{{#pattern=>derive_more::core::result::Result::Ok(#ret_value),val@_=>{fb},}}}}"
             need(ctx, f"{kind_}:form:{recv}", any(pat in s for s in tt), w, f"{kind_}: the `{recv}` accessor no longer has the shape `match self {{ <own pattern> => <own binders>, val @ _ => <per-variant failure> }}`", {"expected": pat})
-        need(ctx, f"{kind_}:gating", "if info.owned&&state.default_info.owned{funcs.push(func)}" in t and "if info.ref_&&state.default_info.ref_{funcs.push(ref_func)}" in t and "if info.ref_mut&&state.default_info.ref_mut{funcs.push(mut_func)}" in t, w, f"{kind_}: owned/ref/ref_mut forms are no longer emitted exactly as selected")
+        # each receiver form is emitted exactly when the variant's own-else-inherited flag of that kind is set
+        # (condition formula of the push == that one flag of the per-variant info)
+        from . import reject as RJ
+        from .. import guardf as GF
+
+        gate = {}
+        for mc_, ps_ in A.method_calls(fn.block, "push"):
+            if not mc_["args"] or A.kind(A.peel(mc_["args"][0])) != "Expr::Path":
+                continue
+            var = A.path_str(A.peel(mc_["args"][0]))
+            b_ = TY.resolve(fn, var, (A.span_of(mc_) or [0])[0])
+            init = A.render(b_["init"]) if b_ is not None and b_.get("init") is not None else ""
+            form = "ref_mut" if "(&mut self)" in init or "(&mutself)" in init.replace(" ", "") else "ref_" if "(&self)" in init.replace(" ", "") else "owned" if "(self)" in init.replace(" ", "") else None
+            if form:
+                gate[form] = GF.canon_text(RJ.site_formula(fn, mc_, ps_))
+        need(ctx, f"{kind_}:gating", gate == {"owned": "$.owned", "ref_": "$.ref_", "ref_mut": "$.ref_mut"}, w, f"{kind_}: owned/ref/ref_mut forms are no longer emitted exactly as the variant's flags select them (conditions found: {gate})")
         gi = A.get_fn(ctx.files, rel, "get_field_info")
         gt = A.fn_text(gi)
         # one enumerate over the variant's unnamed fields yields the binder `field_{n}` and the type of the same element
